@@ -10,6 +10,10 @@ vars == <<case, done>>
 Extra == IF Fam = "hot"
          THEN {[id |-> "x", res |-> "r1", metric |-> "qps", ctl |-> "reject", idx |-> 0, key |-> "", thr |-> [sym |-> s],
                 maxq |-> 0, burst |-> 0, dur |-> 1, cap |-> 0, spec |-> <<>>] : s \in {"P53P1", "I64MAX", "U64MAX"}}
+         ELSE IF Fam = "flow"
+         THEN {[id |-> "x", res |-> "r1", ref |-> "", calc |-> "mem", ctl |-> "reject", rel |-> "current", thr |-> <<1, 1>>,
+                warm |-> 0, cold |-> 0, maxq |-> 0, I |-> 0, lmu |-> [sym |-> a], hmu |-> 1, mlw |-> [sym |-> b], mhw |-> [sym |-> "U64MAX"]]
+               : a \in {"P53P1", "I64MAX"}, b \in {"P53P1", "I64MAX"}}
          ELSE {}
 Rules == IF Sample = 0 THEN Space(Fam) ELSE RandomSubset(Sample, Space(Fam))
 F == Fields(Fam)
